@@ -58,8 +58,10 @@ def weighted(*pairs):
     return _raw.flatmap(lambda x: pool[_mix(x, len(pool))])
 
 
-txt = st.text(alphabet=ASCII, min_size=0, max_size=20)
-txt1 = st.text(alphabet=ASCII, min_size=1, max_size=20)
+# mostly printable ASCII, some text outside it (2- to 4-byte UTF-8 sequences)
+CHARS = ASCII * 6 + u"\u00e9\u00fc\u00df\u0142\u03a9\u0416\u05d0\u4e2d\u6f22\u20ac\U0001f511"
+txt = st.text(alphabet=CHARS, min_size=0, max_size=20)
+txt1 = st.text(alphabet=CHARS, min_size=1, max_size=20)
 long_txt = st.text(alphabet=ASCII, min_size=200, max_size=300)
 name_txt = weighted((8, txt1), (1, st.just("")), (1, long_txt))
 
